@@ -23,11 +23,16 @@ git apply $SRC/patch.diff
 git checkout -q go.mod 2>/dev/null
 cd /verif
 QUICK=$(VERIF_REPO=$WT ./check $P quick 2>&1 | tail -4)
-CAUGHT=quick
-if ! echo "$QUICK" | grep -q VIOLATION; then
+# "concrete" = a VIOLATION line with a failing input; "tie-only" = only `no-failing-input-found`
+# (note: when a proof obligation such as a source pin breaks, the quick command already runs the thorough generators)
+kind() { if echo "$1" | grep VIOLATION | grep -qv no-failing-input-found; then echo concrete; elif echo "$1" | grep -q VIOLATION; then echo tie-only; else echo none; fi; }
+KQ=$(kind "$QUICK")
+CAUGHT="quick:$KQ"; THOR=""
+if [ "$KQ" != concrete ]; then
   THOR=$(VERIF_REPO=$WT ./check $P thorough 2>&1 | tail -4)
-  if echo "$THOR" | grep -q VIOLATION; then CAUGHT=thorough; else CAUGHT=missed; fi
-else THOR=""; fi
+  KT=$(kind "$THOR")
+  if [ "$KT" = concrete ]; then CAUGHT="thorough:concrete"; elif [ "$KQ" = tie-only ] || [ "$KT" = tie-only ]; then CAUGHT="tie-only"; else CAUGHT=missed; fi
+fi
 mkdir -p /verif/seeded/$ID
 cp $SRC/patch.diff $SRC/demo_test.go /verif/seeded/$ID/; cp $SRC/README.md /verif/seeded/$ID/README.md 2>/dev/null
 python3 - "$P" "$ID" "$BUILD" "$SUITE" "$SUITEFAIL" "$DEMO_WITH" "$DEMO_WITHOUT" "$CAUGHT" "$QUICK" "$THOR" "$SUB" <<'PY'
